@@ -289,6 +289,22 @@ func (p *projSpec) applySpecEdit(op *opSpec) bool {
 				t.DepSpell = append(t.DepSpell, 0)
 			}
 		}
+	case "dir-unadd":
+		// undo of dir-add with the same N
+		delete(p.Files, filepath.Join(op.Path, fmt.Sprintf("added%d.txt", op.N)))
+	case "remove-dep-label":
+		// undo of add-dep: the named dependency edge goes away again
+		if t := p.target(op.Label); t != nil {
+			for k, d := range t.Deps {
+				if d == op.Item {
+					t.Deps = append(t.Deps[:k:k], t.Deps[k+1:]...)
+					if k < len(t.DepSpell) {
+						t.DepSpell = append(t.DepSpell[:k:k], t.DepSpell[k+1:]...)
+					}
+					break
+				}
+			}
+		}
 	case "set-module-fails":
 		// a helper module gains (N=1) or loses (N=0) a statement that fails while it loads
 		mi, _ := strconv.Atoi(op.Item)
